@@ -199,7 +199,12 @@ func commonSniffChecks(t fataler, data []byte, what string) formats.Format {
 				t.Fatalf("SniffReader reports %q but the top-level declaration says %q (present=%v) on %s\n%q", res.format, decl, ok, what, trunc(string(data), 800))
 			}
 		} else {
-			// tag-value: necessary condition only
+			// a tag-value format can only be declared by a tag-value document: input whose first JSON value
+			// decodes (object, array or scalar) has no tag-value declaration at its top level
+			if fv := firstJSONValue(data); fv != nil {
+				t.Fatalf("SniffReader reports the tag-value format %q for input that is JSON (its top level declares no such thing)\n%q", res.format, trunc(string(data), 800))
+			}
+			// necessary condition for genuine tag-value input
 			s := string(data)
 			if !strings.Contains(s, "SPDXVersion:") || !strings.Contains(s, "SPDX-"+res.format.Version()) {
 				t.Fatalf("SniffReader reports %q but the input has no SPDXVersion tag with that version\n%q", res.format, trunc(s, 800))
